@@ -97,7 +97,8 @@ EDGE = {
     "domains": [None, ".0.0.1", "0.0.1", "10.0.0.1"],
     "cpaths": [None, "/a", "/a/"],
     "expiry": ["none", "maxage_future", "maxage0", "maxage_negative", "maxage_garbage"],
-    "rpaths": ["/", "/a", "/a/", "/a/b", "/ab", "/b/a", "/a?x=/ab", "/?x=/a", "/ab?x=/a/"],
+    # (origin-form targets may begin with "//": the request path of //x/a is //x/a, there is no authority in it)
+    "rpaths": ["/", "/a", "/a/", "/a/b", "/ab", "/b/a", "/a?x=/ab", "/?x=/a", "/ab?x=/a/", "//x/a", "//x/a/b", "//a", "/b?/a/?/a"],
 }
 CORE = {
     "hosts": ["example.com", "www.example.com", "www.example.com.evil.org", "badexample.com"],
